@@ -151,6 +151,9 @@ class Mode(LogMixin):
         """
         # remove argument so we do not repost this
         kwargs.pop('_from_bcp', None)
+        # the queue of the event which started this mode belongs to that event. do not re-post it with our own
+        # events (their handlers would wait on/clear the wrong queue)
+        start_queue = kwargs.pop('queue', None)
         self.debug_log("Received request to start")
 
         if self.config['mode']['game_mode'] and not (self.machine.game and self.player):
@@ -177,11 +180,11 @@ class Mode(LogMixin):
         This is posted before the "mode_(name)_starting" event.
         '''
 
-        if self.config['mode']['use_wait_queue'] and 'queue' in kwargs:
+        if self.config['mode']['use_wait_queue'] and start_queue is not None:
 
             self.debug_log("Registering a mode start wait queue")
 
-            self._mode_start_wait_queue = kwargs['queue']
+            self._mode_start_wait_queue = start_queue
             assert isinstance(self._mode_start_wait_queue, QueuedEvent)
             self._mode_start_wait_queue.wait()
 
